@@ -67,6 +67,7 @@ class SimRaw(io.RawIOBase):
         self._nread = 0
         self.name = name
         self._multibyte = frozenset(plan.get('mb_offsets') or ())
+        self._tty = bool(plan.get('tty'))
 
     def readable(self):
         return True
@@ -98,7 +99,7 @@ class SimRaw(io.RawIOBase):
         raise OSError('simulated device has no file descriptor')
 
     def isatty(self):
-        return False
+        return self._tty
 
     def readinto(self, b):
         self._nread += 1
